@@ -360,7 +360,7 @@ var urlAlphabet = []string{"*", "/logs/", "/logs", "//logs", "/a/./b", "/a/../lo
 var shapeAlphabet = []string{"a", "A", " a", "a ", "-A", "-a", "A*", "a*"}
 
 // entries at the edge of the list syntax: inverted star, double dash, double star, leading star, non-ASCII, inner blank
-var oddAlphabet = []string{"-*", "--a", "**", "*a", "a", "-a", "*", "é", "-é", "a b"}
+var oddAlphabet = []string{"-*", "--a", "**", "*a", "a", "-a", "*", "é", "-é", "a b", "\xff", "-\xff"}
 
 func enumLists(alpha []string, maxLen int, fn func([]string)) {
 	fn(nil)
@@ -431,7 +431,7 @@ func perField(r *vkit.R, a *admitter) {
 	})
 	r.Set("per_field_odd_syntax_lists", nOdd)
 
-	reqVals := []string{"a", "b", "c", "", "a1", "a/s", "b/s", "b/t", "-a", "-", "*", "A", " a", "a ", "é", "a b", "**", "*a", "xa", "--a"}
+	reqVals := []string{"a", "b", "c", "", "a1", "a/s", "b/s", "b/t", "-a", "-", "*", "A", " a", "a ", "é", "a b", "**", "*a", "xa", "--a", "\xff", "\xfe"}
 	urlVals := []string{"/logs", "/logs/", "/logs//a", "/logs/a", "/a/./b", "/a/b", "/", "//logs", "/a/../logs", "/logsx", "/a"}
 	groupSets := [][]string{nil, {"a"}, {"b"}, {"c"}, {"a", "b"}, {"a", "c"}, {"c", "d"}, {"a", "b", "c"}, {""}, {"a1"}, {"-a"}, {"A"}, {" a"}, {"a "}, {"é"}, {"a b"}, {"*"}, {"a", "a"}, {"xa", "é"}}
 	type resReq struct{ res, sub string }
